@@ -206,7 +206,7 @@ C05_TvdUnit(g, Mup, Mconv, tvd1, phi) ==
      \A P \in AwayFromBoundary(g) :
         RSub(MApplyRow(Mup, phi, P), tvd1[P]) = MApplyRow(Mconv, phi, P)
 VecZero(g, v) == \A c \in AllCells(g) : RIsZero(v[c])
-VecFinite(g, v) == \A c \in AllCells(g) : ~IsNaR(v[c])
+VecFinite(g, v) == \A c \in AllCells(g) : ~IsNaN(v[c])
 
 \* the reference mesh record (what the documentation promises)
 RefMesh(g) ==
